@@ -63,7 +63,7 @@ example : Within (0.1 : ℝ) [0, 10, 7] [1, 10.5, 0] ∧ ¬ Within (0.01 : ℝ) 
 theorem coarsen_sublist (rows : List (List ℝ)) (err : ℝ) : (coarsen rows err).Sublist rows := by
   cases rows with
   | nil => simp [coarsen]
-  | cons first rest => exact (coarsenGo_sublist err rest first).cons₂ first
+  | cons first rest => exact (coarsenGo_sublist err rest first).cons_cons first
 
 /-- The first and the last input row are kept. -/
 theorem coarsen_first_last (first last : List ℝ) (mid : List (List ℝ)) (err : ℝ) :
@@ -78,14 +78,6 @@ theorem strictly_increasing_preserved (rows : List (List ℝ)) (err : ℝ) (h : 
 
 /-! ## stabilize -/
 
-theorem stab_kept (ρ : ℝ → ℝ → ℝ → ℝ) (first : List ℝ) (rest : List (List ℝ))
-    (hz : ∀ r ∈ first :: rest, 0 ≤ depth r) :
-    selectRows (first :: rest) (stabMask ρ (first :: rest)) = first :: keepGo ρ (sigma ρ first) rest := by
-  have h0 : (0 : ℝ) ≤ depth first := hz first (by simp)
-  unfold stabMask
-  rw [selectRows_cons, select_stabMaskGo ρ rest (fun r hr => hz r (by simp [hr]))]
-  simp [Num.real_zero, h0]
-
 /-- In the code's domain (no negative depth, strictly increasing depths, at least depth, T, S in
     every row) stabilisation returns exactly the rows selected by its mask: re-interpolating T and S
     of the kept rows from the kept rows changes nothing.  Hence retained rows are rows of the input. -/
@@ -97,7 +89,7 @@ theorem stabilize_rows_subset (ρ : ℝ → ℝ → ℝ → ℝ) (k : Nat) (hk :
     ∧ (stabilize ρ (first :: (mid ++ [last]))).Sublist (first :: (mid ++ [last])) := by
   have hK := stab_kept ρ first (mid ++ [last]) hz
   have hsub : (first :: keepGo ρ (sigma ρ first) (mid ++ [last])).Sublist (first :: (mid ++ [last])) :=
-    (keepGo_sublist ρ _ _).cons₂ first
+    (keepGo_sublist ρ _ _).cons_cons first
   have hsK : StrictInc (first :: keepGo ρ (sigma ρ first) (mid ++ [last])) := List.Pairwise.sublist hsub hs
   have hwK : Width k (first :: keepGo ρ (sigma ρ first) (mid ++ [last])) :=
     fun r hr => hw r (hsub.subset hr)
@@ -200,7 +192,7 @@ theorem pressure_recurrence (ρ : ℝ → ℝ → ℝ → ℝ) (z T S : List ℝ
       (101325 + ρ (T.getD 0 0) (S.getD 0 0) 101325 * 9.81 * 1 * z.getD 0 0)) (by simp)
   refine ⟨P', ?_, h2, ?_, ?_⟩
   · have e : (ofSgn 1 : ℝ) = 1 := by unfold ofSgn; simp [Num.real_one]
-    simp only [e, Num.real_ofSci, Num.real_zero]
+    simp only [e, Num.real_ofSci]
     norm_num at h1 ⊢
     exact h1
   · rw [h3, getD_set]
@@ -251,7 +243,7 @@ theorem pressure_recurrence_negative (ρ : ℝ → ℝ → ℝ → ℝ) (z T S :
       unfold ofSgn
       simp only [Num.real_one, Num.real_zero]
       norm_num
-    simp only [e, Num.real_ofSci, Num.real_zero]
+    simp only [e, Num.real_ofSci]
     norm_num at h1 ⊢
     exact h1
   · rw [h3 _ le_rfl, getD_set]
